@@ -1,7 +1,7 @@
 """C01: receive integrity."""
 from lib import script
 
-THEOREMS = ["C01_line_sound", "C01_get_value_sound", "C01_foreign_address", "C01_nonzero_flag",
+THEOREMS = ["C01_get_sound", "C01_uint_sound", "C01_int_sound", "C01_string_sound", "C01_device_id_sound", "C01_line_sound", "C01_get_value_sound", "C01_foreign_address", "C01_nonzero_flag",
             "C01_single_substitution", "C01_valid_responseb_spec"]
 
 
@@ -14,5 +14,4 @@ def run(res, args):
                     "Classes for C01: every single-character substitution/deletion/insertion and every truncation of valid "
                     "exchanges, multi-character corruption, splices, every response nibble, foreign addresses, every flag byte, "
                     "noise and async prefixes, answers at attempt 1..8, both hex cases.",
-                    partial=["the lift of the line-level soundness theorems through the bufio/port model to 'the bytes received contain the frame' is "
-                             "exercised by the judge on every case (C01_call_ok on model and implementation), not yet proved as a theorem"])
+                    partial=[])
